@@ -198,6 +198,10 @@ impl<T: crate::EventSource> TransientSourceState<T> {
         &&& !(o.st() is Keep) ==> (n.st() == o.st() && r is Ok && r->Ok_0 is Continue)
         // a child asking for Disable / Remove is parked in the matching state and a re-registration is requested
         &&& (r is Ok && r->Ok_0 is Continue) ==> n.st() is Keep || !(o.st() is Keep)
+        // the kept child -- registered at this point -- never leaves the wrapper here, whatever its processing answered
+        // (it would be dropped while registered); an error of the child changes nothing about who is kept
+        &&& o.st() is Keep ==> (n.st() is Keep || n.st() is Disable || n.st() is Remove)
+        &&& (r is Err && o.st() is Keep) ==> n.st() is Keep
     }
 //@ endregion
 //@ item src/sources/transient.rs / impl crate::EventSource for TransientSource<T> / fn process_events props=C18 ret=r splitarms
